@@ -32,3 +32,38 @@ Theorem C09_trailer_layout : forall root codec count levels,
   length (trailer_bytes (mk_meta FormatV2 root codec count levels)) = 22%nat.
 Proof. intros. split; reflexivity. Qed.
 Print Assumptions C09_trailer_layout.
+
+(* ================= the whole file (backbone W, structural part): for ANY insert sequence on which the
+   writer model finishes, over a plain sink, with any codec whose decompress inverts its compress:
+   the file is the frames of the emitted blocks one after the other (u64 BE compressed length +
+   compressed block), each at the offset recorded for it, followed by the 22-byte trailer; every
+   emitted block is the finish of a legal block writer (gl pairs it with its entries); and the index
+   tree invariant TI holds with nothing pending: at every index level k <= index_levels the entries
+   of the level-k blocks, in order, are exactly the (last key, u64 BE offset) items of the level-(k+1)
+   blocks in order, and the data level (index_levels + 1) spells exactly the inserted entries; the
+   root block is the last block and the trailer points to it. ================= *)
+From Grenad.model Require Import Writer Reader.
+From Grenad.proofs Require Import WriterInv WriterLayout WriterTree.
+
+Theorem C09_file_structure : forall compress decompress c,
+  (forall b z, compress (wc_codec c) (wc_level c) b = Done z -> decompress (wc_codec c) z = Done b) ->
+  forall es i s lg m, wc_levels c < 256 ->
+  w_run_gen vsink vs_wr vs_fl vs_count compress c vs_empty es = (i, Done (s, lg, m)) ->
+  exists gl body,
+    laid_out compress c (rev lg) body /\ map fst gl = rev lg /\ Forall (ents c) gl /\
+    TI (wc_levels c) gl (fun _ => []) es /\
+    vs_bytes s = body ++ trailer_bytes m /\ vs_count s = len (vs_bytes s) /\
+    m_version m = FormatV2 /\ m_codec m = wc_codec c /\ m_levels m = u8 (wc_levels c) /\
+    exists gl0 e0 es0, gl = gl0 ++ [(e0, es0)] /\ em_level e0 = 0 /\ em_offset e0 = m_root m.
+Proof. exact w_run_tree. Qed.
+Print Assumptions C09_file_structure.
+
+(* and every block laid out in the file is loaded back, from its recorded offset, as exactly the
+   parse of the emitted block (length prefix, decompression, footer parse) *)
+Theorem C09_blocks_load_back : forall compress decompress c,
+  (forall b z, compress (wc_codec c) (wc_level c) b = Done z -> decompress (wc_codec c) z = Done b) ->
+  forall l f, laid_out compress c l f -> len f < 2^64 ->
+  forall e tail ord, In e l ->
+  load_block decompress (f ++ tail) (wc_codec c) ord (em_offset e) = parse_block (em_bytes e).
+Proof. exact laid_out_load. Qed.
+Print Assumptions C09_blocks_load_back.
